@@ -1437,4 +1437,224 @@ theorem C18_ctor_inherits_exactly_the_supertypes_explicit_attributes (es : List 
     exact (nodup_dedup _).filter _
 
 
+/-! ## the order of the inherited constructor parameters: a supertype's attributes come first -/
+
+/-- `a` occurs in `l` at a position with no `b` before it: the first `a` precedes every `b` -/
+def FirstBefore (a b : Attr) (l : List Attr) : Prop := ∃ l1 l2, l = l1 ++ a :: l2 ∧ b ∉ l1
+
+theorem FirstBefore.append_right {a b : Attr} {l : List Attr} (m : List Attr) (h : FirstBefore a b l) : FirstBefore a b (l ++ m) := by
+  obtain ⟨l1, l2, rfl, hb⟩ := h
+  exact ⟨l1, l2 ++ m, by simp, hb⟩
+
+theorem FirstBefore.append_left {a b : Attr} {l : List Attr} (m : List Attr) (hm : b ∉ m) (h : FirstBefore a b l) :
+    FirstBefore a b (m ++ l) := by
+  obtain ⟨l1, l2, rfl, hb⟩ := h
+  exact ⟨m ++ l1, l2, by simp, by simp [hm, hb]⟩
+
+theorem FirstBefore.of_mem {a b : Attr} {m : List Attr} (l : List Attr) (ha : a ∈ m) (hb : b ∉ m) : FirstBefore a b (m ++ l) := by
+  obtain ⟨l1, l2, rfl⟩ := List.append_of_mem ha
+  exact ⟨l1, l2 ++ l, by simp, fun h => hb (by simp [h])⟩
+
+theorem FirstBefore.flatMap {α} {a b : Attr} (g : α → List Attr) :
+    ∀ ps : List α, (∀ p ∈ ps, b ∈ g p → FirstBefore a b (g p)) → b ∈ ps.flatMap g → FirstBefore a b (ps.flatMap g)
+  | [], _, h => by simp at h
+  | p :: rest, hall, h => by
+    simp only [List.flatMap_cons] at h ⊢
+    by_cases hbp : b ∈ g p
+    · exact (hall p List.mem_cons_self hbp).append_right _
+    · have hr : b ∈ rest.flatMap g := by
+        rcases List.mem_append.mp h with h | h
+        · exact absurd h hbp
+        · exact h
+      exact (FirstBefore.flatMap g rest (fun q hq => hall q (List.mem_cons_of_mem _ hq)) hr).append_left _ hbp
+
+theorem FirstBefore.filter {a b : Attr} (p : Attr → Bool) {l : List Attr} (h : FirstBefore a b l) (ha : p a = true) :
+    FirstBefore a b (l.filter p) := by
+  obtain ⟨l1, l2, rfl, hb⟩ := h
+  refine ⟨l1.filter p, l2.filter p, by simp [ha], fun hm => hb (List.mem_filter.mp hm).1⟩
+
+theorem FirstBefore.dedup {a b : Attr} (hab : a ≠ b) : ∀ l : List Attr, FirstBefore a b l → FirstBefore a b (dedup l)
+  | [], h => by obtain ⟨l1, l2, h, _⟩ := h; simp at h
+  | x :: xs, h => by
+    obtain ⟨l1, l2, heq, hb⟩ := h
+    simp only [GenPy.dedup]
+    cases l1 with
+    | nil =>
+      simp only [List.nil_append, List.cons.injEq] at heq
+      obtain ⟨rfl, _⟩ := heq
+      exact ⟨[], _, rfl, by simp⟩
+    | cons y l1' =>
+      simp only [List.cons_append, List.cons.injEq] at heq
+      obtain ⟨rfl, hxs⟩ := heq
+      have hxb : x ≠ b := fun h => hb (by simp [h])
+      have ih := FirstBefore.dedup hab xs ⟨l1', l2, hxs, fun h => hb (List.mem_cons_of_mem _ h)⟩
+      by_cases hxa : x = a
+      · subst hxa; exact ⟨[], _, rfl, by simp⟩
+      · have hf := ih.filter (fun c => decide (c ≠ x)) (by simpa using fun h => hxa h.symm)
+        obtain ⟨m1, m2, hm, hbm⟩ := hf
+        exact ⟨x :: m1, m2, by rw [List.cons_append]; exact congrArg (x :: ·) hm, by simp [hbm, Ne.symm hxb]⟩
+
+/-- an attribute record belongs to one entity only (records carry their owner) -/
+def OwnersDistinct (es : List Entity) : Prop :=
+  ∀ (x : Attr) (n m : String) (en em : Entity), find es n = some en → find es m = some em → x ∈ en.attrs → x ∈ em.attrs → n = m
+
+theorem path_length_pos {es : List Entity} {anc n : String} {l : List String} (h : EntityOrder.Path es anc n l) : 0 < l.length := by
+  cases h <;> simp
+
+theorem path_head_find {es : List Entity} {anc n : String} {l : List String} (h : EntityOrder.Path es anc n l) :
+    ∃ e, find es n = some e := by
+  cases h with
+  | direct hf _ => exact ⟨_, hf⟩
+  | step hf _ _ => exact ⟨_, hf⟩
+
+/-- the main lemma: below any chain of subtypes (`stack`), with the fuel that is left, in `ENTITYget_all_attributes` of `n`
+the first `a` precedes every `b` -/
+theorem allAttrs_firstBefore (es : List Entity) (hac : EntityOrder.Acyclic es) (hown : OwnersDistinct es)
+    {A B : String} {ae be : Entity} (hanc : Anc es A B) (hfA : find es A = some ae) (hfB : find es B = some be)
+    {a b : Attr} (ha : a ∈ ae.attrs) (hb : b ∈ be.attrs) :
+    ∀ (f : Nat) (n : String) (X : Entity) (stack : List String), find es n = some X → stack.Nodup →
+      (∀ s ∈ stack, Anc es n s) → (∀ s ∈ stack, s ∈ es.map (·.name)) → es.length ≤ f + stack.length →
+      b ∈ allAttrs es f X → FirstBefore a b (allAttrs es f X) := by
+  -- when `b` is an own attribute of `n`, `n` is `B`, and the path from `A` fits into the fuel
+  have key : ∀ (f : Nat) (n : String) (X : Entity) (stack : List String), find es n = some X → stack.Nodup →
+      (∀ s ∈ stack, Anc es n s) → (∀ s ∈ stack, s ∈ es.map (·.name)) → es.length ≤ f + stack.length →
+      b ∈ X.attrs → n = B ∧ a ∈ allAttrs es f X ∧ a ∉ X.attrs ∧ 0 < f := by
+    intro f n X stack hfX hnd hdesc hnames hfuel hbX
+    have hnB : n = B := hown b n B X be hfX hfB hbX hb
+    subst hnB
+    obtain ⟨l, hl⟩ := EntityOrder.path_of_anc hanc
+    have hdisj : ∀ s ∈ l, s ∉ stack := by
+      intro s hs hst
+      rcases (EntityOrder.path_nodes hl).1 s hs with rfl | hsn
+      · exact hac _ (hdesc _ hst)
+      · exact hac _ (EntityOrder.anc_trans hsn (hdesc s hst))
+    have hlen : l.length + stack.length ≤ es.length := by
+      have hnd' : (l ++ stack).Nodup := List.nodup_append.mpr ⟨EntityOrder.path_nodup hac hl, hnd, fun x hx y hy hxy => hdisj x hx (hxy ▸ hy)⟩
+      have := EntityOrder.nodup_subset_length_le (l ++ stack) (es.map (·.name)) hnd'
+        (fun x hx => (List.mem_append.mp hx).elim ((EntityOrder.path_nodes hl).2 x) (hnames x))
+      simpa using this
+    have hpos := path_length_pos hl
+    have hlf : l.length ≤ f := by omega
+    refine ⟨rfl, allAttrs_complete es a hl f X ae hlf hfX hfA ha, ?_, by omega⟩
+    intro haX
+    have : A = n := hown a A n ae X hfA hfX ha haX
+    subst this
+    exact hac _ hanc
+  intro f
+  induction f with
+  | zero =>
+    intro n X stack hfX hnd hdesc hnames hfuel hbm
+    have := (key 0 n X stack hfX hnd hdesc hnames hfuel hbm).2.2.2
+    omega
+  | succ g ih =>
+    intro n X stack hfX hnd hdesc hnames hfuel hbm
+    simp only [allAttrs, superOrder_eq] at hbm ⊢
+    by_cases hbf : b ∈ X.supers.flatMap (fun p => match find es p with | some pe => allAttrs es g pe | none => [])
+    · refine (FirstBefore.flatMap _ X.supers ?_ hbf).append_right _
+      intro p hp hbp
+      cases hfp : find es p with
+      | none => simp [hfp] at hbp
+      | some P =>
+        simp only [hfp] at hbp ⊢
+        have hpn : Anc es p n := Anc.direct hfX hp
+        have hnn : n ∉ stack := fun h => hac _ (hdesc n h)
+        refine ih p P (n :: stack) hfp (List.nodup_cons.mpr ⟨hnn, hnd⟩) ?_ ?_ (by simp only [List.length_cons]; omega) hbp
+        · intro s hs
+          rcases List.mem_cons.mp hs with rfl | hs
+          · exact hpn
+          · exact EntityOrder.anc_trans hpn (hdesc s hs)
+        · intro s hs
+          rcases List.mem_cons.mp hs with rfl | hs
+          · exact EntityOrder.find_some_name_mem hfX
+          · exact hnames s hs
+    · have hbX : b ∈ X.attrs := by
+        rcases List.mem_append.mp hbm with h | h
+        · exact absurd h hbf
+        · exact h
+      obtain ⟨_, haall, hanX, _⟩ := key (g + 1) n X stack hfX hnd hdesc hnames hfuel hbX
+      simp only [allAttrs, superOrder_eq] at haall
+      have haf : a ∈ X.supers.flatMap (fun p => match find es p with | some pe => allAttrs es g pe | none => []) := by
+        rcases List.mem_append.mp haall with h | h
+        · exact h
+        · exact absurd h hanX
+      exact FirstBefore.of_mem _ haf hbf
+
+/-- **In the constructor a supertype's attributes come before its subtypes' attributes** — Part 21 order stated with the
+supertype relation and positions, not with the fold that computes the list: for every acyclic schema whose attribute
+records belong to one entity each, every entity `e`, every `A` that is a direct or indirect supertype of `B`, every
+explicit attribute `a` of `A` and every attribute `b` of `B` that the constructor of `e` takes: `a` occurs in the inherited
+parameter list at a position with no `b` before it.  (With `C18_ctor_inherits_exactly_the_supertypes_explicit_attributes`
+— membership, each once — and `C18_ctor_inherited_then_own` — own attributes last — this fixes the order up to the order
+among unrelated supertypes, which is the declaration order by `C18_ctor_p21_order` and the oracle.) -/
+theorem C18_ctor_supertype_attributes_first (es : List Entity) (hac : EntityOrder.Acyclic es) (hown : OwnersDistinct es)
+    (e : Entity) {A B : String} {ae be : Entity} (hanc : Anc es A B) (hfA : find es A = some ae) (hfB : find es B = some be)
+    {a b : Attr} (ha : a ∈ ae.attrs) (hb : b ∈ be.attrs) (hpa : isParam a = true) (hbin : b ∈ inheritedAttrs es e) :
+    FirstBefore a b (inheritedAttrs es e) := by
+  have hio : inheritedOnce = true := rfl
+  have hab : a ≠ b := by
+    intro h; subst h
+    exact hac _ ((hown a A B ae be hfA hfB ha hb) ▸ hanc)
+  simp only [inheritedAttrs, hio, if_true] at hbin ⊢
+  have hbL : b ∈ inheritedAll es e := (mem_dedup b _).mp (List.mem_filter.mp hbin).1
+  refine ((FirstBefore.dedup hab _ ?_)).filter _ hpa
+  simp only [inheritedAll, superOrder_eq] at hbL ⊢
+  refine FirstBefore.flatMap _ e.supers ?_ hbL
+  intro p _ hbp
+  cases hfp : find es p with
+  | none => simp [hfp] at hbp
+  | some P =>
+    simp only [hfp] at hbp ⊢
+    exact allAttrs_firstBefore es hac hown hanc hfA hfB ha hb es.length p P [] hfp List.nodup_nil
+      (fun s hs => by simp at hs) (fun s hs => by simp at hs) (by simp) hbp
+
+
+/-! ### the hypotheses are satisfiable -/
+
+theorem acyclic_of_rank (es : List Entity) (r : String → Nat)
+    (h : ∀ n e p, find es n = some e → p ∈ e.supers → r p < r n) : EntityOrder.Acyclic es := by
+  have hlt : ∀ {a n}, Anc es a n → r a < r n := by
+    intro a n ha
+    induction ha with
+    | direct hf hm => exact h _ _ _ hf hm
+    | step hf hm _ ih => exact Nat.lt_trans ih (h _ _ _ hf hm)
+  intro x hx
+  exact Nat.lt_irrefl _ (hlt hx)
+
+theorem find_mem_name {es : List Entity} {n : String} {e : Entity} (h : find es n = some e) : e ∈ es ∧ e.name = n := by
+  unfold find at h
+  exact ⟨List.mem_of_find?_eq_some h, by simpa using List.find?_some h⟩
+
+/-- a diamond whose left arm has an attribute of its own -/
+def diamondY : List Entity :=
+  [⟨"root", [], [{ owner := "root", name := "x", kind := .explicit }]⟩,
+   ⟨"l", ["root"], [{ owner := "l", name := "y", kind := .explicit }]⟩, ⟨"r", ["root"], []⟩, ⟨"d", ["l", "r"], []⟩]
+
+def rankD (n : String) : Nat := if n = "d" then 2 else if n = "root" then 0 else 1
+
+theorem diamondY_acyclic : EntityOrder.Acyclic diamondY := by
+  apply acyclic_of_rank diamondY rankD
+  intro n e p hf hp
+  obtain ⟨hm, hn⟩ := find_mem_name hf
+  subst hn
+  simp only [diamondY, List.mem_cons, List.not_mem_nil, or_false] at hm
+  rcases hm with rfl | rfl | rfl | rfl <;> simp at hp <;> (try rcases hp with rfl | rfl) <;> (try subst hp) <;> decide
+
+theorem diamondY_owners : OwnersDistinct diamondY := by
+  intro x n m en em hfn hfm hxn hxm
+  obtain ⟨hmn, hn⟩ := find_mem_name hfn
+  obtain ⟨hmm, hm⟩ := find_mem_name hfm
+  subst hn; subst hm
+  simp only [diamondY, List.mem_cons, List.not_mem_nil, or_false] at hmn hmm
+  rcases hmn with rfl | rfl | rfl | rfl <;> rcases hmm with rfl | rfl | rfl | rfl <;> simp at hxn hxm <;>
+    first | rfl | (subst hxn; simp at hxm)
+
+/-- the hypotheses of `C18_ctor_supertype_attributes_first` are satisfiable: `root` above `l`, seen from `d` -/
+example : FirstBefore { owner := "root", name := "x", kind := .explicit } { owner := "l", name := "y", kind := .explicit }
+    (inheritedAttrs diamondY ⟨"d", ["l", "r"], []⟩) :=
+  C18_ctor_supertype_attributes_first diamondY diamondY_acyclic diamondY_owners ⟨"d", ["l", "r"], []⟩
+    (A := "root") (B := "l") (ae := ⟨"root", [], [{ owner := "root", name := "x", kind := .explicit }]⟩)
+    (be := ⟨"l", ["root"], [{ owner := "l", name := "y", kind := .explicit }]⟩) (Anc.direct (e := ⟨"l", ["root"], [{ owner := "l", name := "y", kind := .explicit }]⟩) (by decide) (by decide))
+    (by decide) (by decide) (by decide) (by decide) (by decide) (by decide)
+
+
 end StepModel.GenPy
